@@ -11,6 +11,7 @@ package engine
 //@ decl GenginePool.ruleBuilder guarded_by updateLock
 //@ decl GenginePool.clear guarded_by updateLock
 //@ decl GenginePool.execModel guarded_by updateLock
+//@ ghostattr gengineWrapper inlist = 1
 //@ lockinv GenginePool.runningLock := listOK(self, self.freeGengines, false)
 //@ lockinv GenginePool.additionLock := listOK(self, self.additionGengines, true)
 
@@ -45,4 +46,226 @@ package engine
 //@   requires gp != nil && wrapperOK(gp, gw) && gget(inlist, gw) == 0
 //@   ensures [C17] returned: gget(inlist, gw) == 1
 //@   modifies GenginePool.freeGengines, GenginePool.additionGengines, gset(inlist, gw), elemsof(*gengineWrapper)
+//@   nopanic
+
+//@ lockinv GenginePool.updateLock := poolRules(self)
+
+// ---------------------------------------------------------------------------
+// management operations and queries (C16, C10, C07): each runs under updateLock, keeps poolRules, and either
+// installs the denoted rule set in the master and in every instance, or changes nothing.
+
+//@ func (*GenginePool).SetExecModel
+//@   props C16 C19 C09
+//@   entry nolocks
+//@   requires poolShape(gp)
+//@   ensures [C16] rejected: !(execModel == 1 || execModel == 2 || execModel == 3 || execModel == 4) ==> result != nil
+//@   ensures [C16] accepted: (execModel == 1 || execModel == 2 || execModel == 3 || execModel == 4) ==> result == nil
+//@   modifies gp.execModel, gp.clear, gp.ruleBuilder, builder.RuleBuilder.Kc
+//@   nopanic
+
+//@ func (*GenginePool).GetExecModel
+//@   props C16 C19 C09
+//@   entry nolocks
+//@   requires poolShape(gp)
+//@   ensures [C16] valid: result == 1 || result == 2 || result == 3 || result == 4
+//@   modifies gp.execModel, gp.clear, gp.ruleBuilder, builder.RuleBuilder.Kc
+//@   nopanic
+
+//@ func (*GenginePool).GetRulesNumber
+//@   props C16 C19 C09
+//@   entry nolocks
+//@   requires poolShape(gp)
+//@   ensures [C16] nonneg: result >= 0
+//@   modifies gp.execModel, gp.clear, gp.ruleBuilder, builder.RuleBuilder.Kc
+//@   nopanic
+
+//@ func (*GenginePool).GetRuleSalience
+//@   props C16 C19 C09
+//@   entry nolocks
+//@   requires poolShape(gp)
+//@   ghost found bool = false
+//@   oncall (*sync.Mutex).Unlock
+//@     before found := !gp.clear && (ruleName in gp.ruleBuilder.Kc.RuleEntities)
+//@   ensures [C16] agrees: (result.1 == nil) <==> found
+//@   modifies gp.execModel, gp.clear, gp.ruleBuilder, builder.RuleBuilder.Kc
+//@   nopanic
+
+//@ func (*GenginePool).GetRuleDesc
+//@   props C16 C19 C09
+//@   entry nolocks
+//@   requires poolShape(gp)
+//@   ghost found bool = false
+//@   oncall (*sync.Mutex).Unlock
+//@     before found := !gp.clear && (ruleName in gp.ruleBuilder.Kc.RuleEntities)
+//@   ensures [C16] agrees: (result.1 == nil) <==> found
+//@   modifies gp.execModel, gp.clear, gp.ruleBuilder, builder.RuleBuilder.Kc
+//@   nopanic
+
+//@ func (*GenginePool).IsExist
+//@   props C16 C19 C09
+//@   entry nolocks
+//@   requires poolShape(gp)
+//@   ensures [C16] length: len(result) == len(ruleNames)
+//@   modifies gp.execModel, gp.clear, gp.ruleBuilder, builder.RuleBuilder.Kc
+//@   nopanic
+//@   loop 0 invariant cleared: held(gp.updateLock) && len(exist) == i && 0 <= i && i <= len(ruleNames) && (isnil(exist) || fresh(arr(exist))) && lo(exist) == 0 && (gp.clear || gp.ruleBuilder == nil)
+//@   loop 0 invariant allfalse: forall qi :: 0 <= qi && qi < len(exist) ==> !exist[qi]
+//@   loop 0 decreases len(ruleNames) - i
+//@   loop 1 invariant sofar: held(gp.updateLock) && len(exist) == rangeindex + 1 && -1 <= rangeindex && rangeindex < len(ruleNames) && (isnil(exist) || fresh(arr(exist))) && lo(exist) == 0 && poolRules(gp) && !gp.clear
+//@   loop 1 invariant agree: forall qi :: 0 <= qi && qi <= rangeindex ==> exist[qi] == (ruleNames[qi] in gp.ruleBuilder.Kc.RuleEntities)
+//@   loop 1 decreases len(ruleNames) - rangeindex
+
+//@ func makeRuleBuilder
+//@   props C10 C16 C08
+//@   entry nolocks
+//@   ensures [C10] agreement: (result.1 == nil) <==> (!blank(ruleStr) && !LexErrs(ruleStr) && !SynErrs(ruleStr) && !SemErrs(ruleStr))
+//@   ensures [C08] built: result.1 == nil ==> fresh(result.0) && result.0 != nil && fresh(result.0.Kc) && wfKc(result.0.Kc) && result.0.Dc != nil && len(result.0.Kc.RuleEntities) > 0
+//@   ensures failed: result.1 != nil ==> result.0 == nil
+//@   modifies nothing
+//@   loop 0 invariant dc: dataContext != nil && fresh(dataContext) && dataContext.base != nil && fresh(dataContext.base) && !held(dataContext.lockBase)
+
+// full update (C07, C10, C16): compile into a fresh container, then install it in the master and in EVERY instance
+// before releasing updateLock; on a compile error nothing is changed.
+//@ func (*GenginePool).UpdatePooledRules
+//@   props C07 C10 C16 C19 C09
+//@   entry nolocks
+//@   requires poolShape(gp)
+//@   guardfield builder.RuleBuilder.Kc by gp.updateLock
+//@   ghost m0 = gp.ruleBuilder
+//@   ghost unchanged bool = true
+//@   ghost published bool = false
+//@   ghost newkc *base.KnowledgeContext = nil
+//@   oncall (*sync.Mutex).Lock
+//@     after m0 := gp.ruleBuilder
+//@   oncall makeRuleBuilder
+//@     after newkc := ite(callresult.1 == nil, callresult.0.Kc, nil)
+//@   oncall (*sync.Mutex).Unlock
+//@     before unchanged := gp.ruleBuilder == m0
+//@     before published := gp.ruleBuilder != nil && gp.ruleBuilder.Kc == newkc && !gp.clear && (forall qa :: lo(gp.rbSlice) <= qa && qa < hi(gp.rbSlice) ==> at(gp.rbSlice, qa).Kc == newkc)
+//@   ensures [C10] agreement: (result == nil) <==> (!blank(ruleStr) && !LexErrs(ruleStr) && !SynErrs(ruleStr) && !SemErrs(ruleStr))
+//@   ensures [C10] allornothing: result != nil ==> unchanged
+//@   ensures [C07,C16] publishedtoall: result == nil ==> published && newkc != nil
+//@   modifies gp.execModel, gp.clear, gp.ruleBuilder, builder.RuleBuilder.Kc
+//@   loop 0 invariant pub: held(gp.updateLock) && 0 <= i && i <= gp.max && gp.ruleBuilder != nil && (forall qa :: lo(gp.rbSlice) <= qa && qa < hi(gp.rbSlice) ==> at(gp.rbSlice, qa) != gp.ruleBuilder) && gp.ruleBuilder.Kc == newkc && newkc != nil && wfKc(newkc) && fresh(newkc) && (gp.execModel == 1 || gp.execModel == 2 || gp.execModel == 3 || gp.execModel == 4)
+//@   loop 0 invariant done: forall qa :: lo(gp.rbSlice) <= qa && qa < lo(gp.rbSlice) + i ==> at(gp.rbSlice, qa).Kc == newkc
+//@   loop 0 invariant rest: forall qa :: lo(gp.rbSlice) + i <= qa && qa < hi(gp.rbSlice) ==> wfKc(at(gp.rbSlice, qa).Kc)
+//@   loop 0 decreases gp.max - i
+
+// clear (C16): afterwards every instance and the master hold an empty rule set; later updates bring the pool back
+//@ func (*GenginePool).ClearPoolRules
+//@   props C07 C16 C19 C09
+//@   entry nolocks
+//@   requires poolShape(gp)
+//@   guardfield builder.RuleBuilder.Kc by gp.updateLock
+//@   ghost cleared bool = false
+//@   oncall (*sync.Mutex).Unlock
+//@     before cleared := gp.clear && gp.ruleBuilder != nil && emptymap(gp.ruleBuilder.Kc.RuleEntities) && (forall qa :: lo(gp.rbSlice) <= qa && qa < hi(gp.rbSlice) ==> emptymap(at(gp.rbSlice, qa).Kc.RuleEntities))
+//@   ensures [C16] allempty: cleared
+//@   modifies gp.execModel, gp.clear, gp.ruleBuilder, builder.RuleBuilder.Kc
+//@   nopanic
+//@   loop 0 invariant pub: held(gp.updateLock) && 0 <= i && i <= gp.max && gp.clear && gp.ruleBuilder != nil && (forall qa :: lo(gp.rbSlice) <= qa && qa < hi(gp.rbSlice) ==> at(gp.rbSlice, qa) != gp.ruleBuilder) && wfKc(gp.ruleBuilder.Kc) && emptymap(gp.ruleBuilder.Kc.RuleEntities) && (gp.execModel == 1 || gp.execModel == 2 || gp.execModel == 3 || gp.execModel == 4)
+//@   loop 0 invariant done: forall qa :: lo(gp.rbSlice) <= qa && qa < lo(gp.rbSlice) + i ==> wfKc(at(gp.rbSlice, qa).Kc) && emptymap(at(gp.rbSlice, qa).Kc.RuleEntities)
+//@   loop 0 invariant rest: forall qa :: lo(gp.rbSlice) + i <= qa && qa < hi(gp.rbSlice) ==> wfKc(at(gp.rbSlice, qa).Kc)
+//@   loop 0 decreases gp.max - i
+
+// removal (C16): master and every instance lose exactly the named rules
+//@ func (*GenginePool).RemoveRules
+//@   props C16 C19 C09 C07
+//@   entry nolocks
+//@   requires poolShape(gp)
+//@   guardfield builder.RuleBuilder.Kc by gp.updateLock
+//@   ghost RE0 = gp.ruleBuilder.Kc.RuleEntities
+//@   ghost ok bool = false
+//@   oncall (*sync.Mutex).Lock
+//@     after RE0 := gp.ruleBuilder.Kc.RuleEntities
+//@   oncall (*sync.Mutex).Unlock
+//@     before ok := forall k: string :: (k in gp.ruleBuilder.Kc.RuleEntities) ==> (k in RE0) && gp.ruleBuilder.Kc.RuleEntities[k] == RE0[k] && (forall qi :: lo(ruleNames) <= qi && qi < hi(ruleNames) ==> at(ruleNames, qi) != k)
+//@   ensures [C16] removed: result == nil ==> ok
+//@   ensures [C16] emptylist: len(ruleNames) == 0 ==> result != nil
+//@   modifies gp.execModel, gp.clear, gp.ruleBuilder, builder.RuleBuilder.Kc
+//@   nopanic
+//@   loop 0 invariant pub: held(gp.updateLock) && -1 <= rangeindex && rangeindex < len(gp.rbSlice) && len(ruleNames) > 0 && gp.ruleBuilder != nil && (forall qa :: lo(gp.rbSlice) <= qa && qa < hi(gp.rbSlice) ==> at(gp.rbSlice, qa) != gp.ruleBuilder) && wfKc(gp.ruleBuilder.Kc) && (gp.execModel == 1 || gp.execModel == 2 || gp.execModel == 3 || gp.execModel == 4) && (gp.clear ==> emptymap(gp.ruleBuilder.Kc.RuleEntities))
+//@   loop 0 invariant view: forall k: string :: (k in gp.ruleBuilder.Kc.RuleEntities) ==> (k in RE0) && gp.ruleBuilder.Kc.RuleEntities[k] == RE0[k] && (forall qi :: lo(ruleNames) <= qi && qi < hi(ruleNames) ==> at(ruleNames, qi) != k)
+//@   loop 0 invariant viewonto: forall k: string :: (k in RE0) && !(k in gp.ruleBuilder.Kc.RuleEntities) ==> exists qi :: lo(ruleNames) <= qi && qi < hi(ruleNames) && at(ruleNames, qi) == k
+//@   loop 0 invariant done: forall qa :: lo(gp.rbSlice) <= qa && qa <= lo(gp.rbSlice) + rangeindex ==> wfKc(at(gp.rbSlice, qa).Kc) && sameView(at(gp.rbSlice, qa).Kc, gp.ruleBuilder.Kc)
+//@   loop 0 invariant rest: forall qa :: lo(gp.rbSlice) + rangeindex < qa && qa < hi(gp.rbSlice) ==> wfKc(at(gp.rbSlice, qa).Kc) && (forall k: string :: ((k in at(gp.rbSlice, qa).Kc.RuleEntities) <==> (k in RE0)) && ((k in RE0) ==> at(gp.rbSlice, qa).Kc.RuleEntities[k] == RE0[k]))
+//@   loop 0 decreases len(gp.rbSlice) - rangeindex
+
+//@ func NewGengine
+//@   props C17
+//@   ensures fresh(result) && result != nil
+//@   modifies nothing
+//@   nopanic
+
+// construction (C06, C10, C16, C17): max distinct wrappers with tags 0..max-1, one rule builder per tag, each with its
+// own data context, all holding the compiled rule set
+//@ func NewGenginePool
+//@   props C06 C10 C16 C17
+//@   entry nolocks
+//@   requires poolMaxLen <= 1000000000
+//@   ensures [C10] agreement: (result.1 == nil) <==> (0 < poolMinLen && poolMinLen < poolMaxLen && (em == 1 || em == 2 || em == 3 || em == 4) && !blank(rulesStr) && !LexErrs(rulesStr) && !SynErrs(rulesStr) && !SemErrs(rulesStr))
+//@   ensures [C16,C17] built: result.1 == nil ==> result.0 != nil && fresh(result.0) && poolShape(result.0) && poolRules(result.0) && listOK(result.0, result.0.freeGengines, false) && listOK(result.0, result.0.additionGengines, true) && result.0.max == poolMaxLen && len(result.0.freeGengines) == poolMinLen && len(result.0.additionGengines) == poolMaxLen - poolMinLen && !result.0.clear
+//@   ensures [C06] owncontext: result.1 == nil ==> forall qa, qb :: lo(result.0.rbSlice) <= qa && qa < qb && qb < hi(result.0.rbSlice) ==> at(result.0.rbSlice, qa).Dc != at(result.0.rbSlice, qb).Dc
+//@   ensures failed: result.1 != nil ==> result.0 == nil
+//@   modifies nothing
+//@   loop 0 invariant fill: 0 <= i && i <= poolMinLen && len(fg) == poolMinLen && fresh(arr(fg)) && lo(fg) == 0 && 0 < poolMinLen && poolMinLen < poolMaxLen
+//@   loop 0 invariant elems: forall qa :: 0 <= qa && qa < i ==> at(fg, qa) != nil && fresh(at(fg, qa)) && allocated(at(fg, qa)) && at(fg, qa).tag == qa && !at(fg, qa).addition && at(fg, qa).gengine != nil && gget(inlist, at(fg, qa)) == 1
+//@   loop 0 decreases poolMinLen - i
+//@   loop 1 invariant fill: 0 <= j && j <= poolMaxLen - poolMinLen && len(ag) == poolMaxLen - poolMinLen && fresh(arr(ag)) && lo(ag) == 0 && len(fg) == poolMinLen && fresh(arr(fg)) && lo(fg) == 0 && arr(fg) != arr(ag) && 0 < poolMinLen && poolMinLen < poolMaxLen
+//@   loop 1 invariant felems: forall qa :: 0 <= qa && qa < poolMinLen ==> at(fg, qa) != nil && fresh(at(fg, qa)) && allocated(at(fg, qa)) && at(fg, qa).tag == qa && !at(fg, qa).addition && at(fg, qa).gengine != nil && gget(inlist, at(fg, qa)) == 1
+//@   loop 1 invariant elems: forall qa :: 0 <= qa && qa < j ==> at(ag, qa) != nil && fresh(at(ag, qa)) && allocated(at(ag, qa)) && at(ag, qa).tag == qa + poolMinLen && at(ag, qa).addition && at(ag, qa).gengine != nil && gget(inlist, at(ag, qa)) == 1
+//@   loop 1 decreases poolMaxLen - poolMinLen - j
+//@   loop 2 invariant fill: 0 <= i && i <= poolMaxLen && len(rbs) == poolMaxLen && fresh(arr(rbs)) && lo(rbs) == 0 && srcRb != nil && fresh(srcRb) && wfKc(srcRb.Kc) && fresh(srcRb.Kc) && 0 < poolMinLen && poolMinLen < poolMaxLen
+//@   loop 2 invariant keep: len(ag) == poolMaxLen - poolMinLen && fresh(arr(ag)) && lo(ag) == 0 && len(fg) == poolMinLen && fresh(arr(fg)) && lo(fg) == 0 && arr(fg) != arr(ag)
+//@   loop 2 invariant felems: forall qa :: 0 <= qa && qa < poolMinLen ==> at(fg, qa) != nil && fresh(at(fg, qa)) && allocated(at(fg, qa)) && at(fg, qa).tag == qa && !at(fg, qa).addition && at(fg, qa).gengine != nil && gget(inlist, at(fg, qa)) == 1
+//@   loop 2 invariant aelems: forall qa :: 0 <= qa && qa < poolMaxLen - poolMinLen ==> at(ag, qa) != nil && fresh(at(ag, qa)) && allocated(at(ag, qa)) && at(ag, qa).tag == qa + poolMinLen && at(ag, qa).addition && at(ag, qa).gengine != nil && gget(inlist, at(ag, qa)) == 1
+//@   loop 2 invariant relems: forall qa :: 0 <= qa && qa < i ==> at(rbs, qa) != nil && fresh(at(rbs, qa)) && allocated(at(rbs, qa)) && allocated(at(rbs, qa).Dc) && at(rbs, qa) != srcRb && at(rbs, qa).Kc == srcRb.Kc && at(rbs, qa).Dc != nil && fresh(at(rbs, qa).Dc) && at(rbs, qa).Dc.base != nil
+//@   loop 2 invariant rdistinct: forall qa, qb :: 0 <= qa && qa < qb && qb < i ==> at(rbs, qa) != at(rbs, qb) && at(rbs, qa).Dc != at(rbs, qb).Dc
+//@   loop 2 decreases poolMaxLen - i
+//@   loop 3 invariant inner: 0 <= i && i < poolMaxLen && dataContext != nil && fresh(dataContext) && dataContext.base != nil && fresh(dataContext.base) && !held(dataContext.lockBase) && len(rbs) == poolMaxLen && fresh(arr(rbs)) && lo(rbs) == 0 && srcRb != nil && fresh(srcRb) && wfKc(srcRb.Kc) && fresh(srcRb.Kc) && 0 < poolMinLen && poolMinLen < poolMaxLen
+//@   loop 3 invariant keep: len(ag) == poolMaxLen - poolMinLen && fresh(arr(ag)) && lo(ag) == 0 && len(fg) == poolMinLen && fresh(arr(fg)) && lo(fg) == 0 && arr(fg) != arr(ag)
+//@   loop 3 invariant felems: forall qa :: 0 <= qa && qa < poolMinLen ==> at(fg, qa) != nil && fresh(at(fg, qa)) && allocated(at(fg, qa)) && at(fg, qa).tag == qa && !at(fg, qa).addition && at(fg, qa).gengine != nil && gget(inlist, at(fg, qa)) == 1
+//@   loop 3 invariant aelems: forall qa :: 0 <= qa && qa < poolMaxLen - poolMinLen ==> at(ag, qa) != nil && fresh(at(ag, qa)) && allocated(at(ag, qa)) && at(ag, qa).tag == qa + poolMinLen && at(ag, qa).addition && at(ag, qa).gengine != nil && gget(inlist, at(ag, qa)) == 1
+//@   loop 3 invariant relems: forall qa :: 0 <= qa && qa < i ==> at(rbs, qa) != nil && fresh(at(rbs, qa)) && allocated(at(rbs, qa)) && allocated(at(rbs, qa).Dc) && at(rbs, qa) != srcRb && at(rbs, qa).Kc == srcRb.Kc && at(rbs, qa).Dc != nil && fresh(at(rbs, qa).Dc) && at(rbs, qa).Dc.base != nil && at(rbs, qa).Dc != dataContext
+//@   loop 3 invariant rdistinct: forall qa, qb :: 0 <= qa && qa < qb && qb < i ==> at(rbs, qa) != at(rbs, qb) && at(rbs, qa).Dc != at(rbs, qb).Dc
+
+// ---------------------------------------------------------------------------
+// requests (C06, C07, C17, C19)
+
+// prepare*: take an engine instance (ownership), give it a per-request view of its tag's rule set and data context --
+// the rule set pointer is read under updateLock (C07, C19) -- and inject the request's data
+//@ func (*GenginePool).prepareWithMultiInput
+//@   props C06 C07 C17 C19
+//@   entry nolocks
+//@   requires poolShape(gp)
+//@   guardfield builder.RuleBuilder.Kc by gp.updateLock
+//@   ensures [C17] took: result.1 == nil && wrapperOK(gp, result.0) && gget(inlist, result.0) == 0
+//@   ensures [C07] snapshot: result.0.rulebuilder != nil && fresh(result.0.rulebuilder) && wfKc(result.0.rulebuilder.Kc)
+//@   ensures [C06] owncontext: result.0.rulebuilder.Dc == gp.rbSlice[result.0.tag].Dc && result.0.rulebuilder.Dc != nil
+//@   modifies frame poolrequest
+//@   loopwrites gp.rbSlice[0].Dc
+//@   loop 0 invariant took: wrapperOK(gp, gw) && gget(inlist, gw) == 0 && gw.rulebuilder != nil && fresh(gw.rulebuilder) && wfKc(gw.rulebuilder.Kc) && gw.rulebuilder.Dc == gp.rbSlice[gw.tag].Dc && gw.rulebuilder.Dc != nil && gw.rulebuilder.Dc.base != nil && !held(gw.rulebuilder.Dc.lockBase)
+
+//@ func (*GenginePool).prepare
+//@   props C06 C07 C17 C19
+//@   entry nolocks
+//@   requires poolShape(gp)
+//@   guardfield builder.RuleBuilder.Kc by gp.updateLock
+//@   ensures [C17] took: result.1 == nil && wrapperOK(gp, result.0) && gget(inlist, result.0) == 0
+//@   ensures [C07] snapshot: result.0.rulebuilder != nil && fresh(result.0.rulebuilder) && wfKc(result.0.rulebuilder.Kc)
+//@   ensures [C06] owncontext: result.0.rulebuilder.Dc == gp.rbSlice[result.0.tag].Dc && result.0.rulebuilder.Dc != nil
+//@   modifies frame poolrequest
+
+//@ func getKeys
+//@   props C06
+//@   ensures [C06] allkeys: forall k: string :: (k in data) ==> exists qi :: lo(result) <= qi && qi < hi(result) && at(result, qi) == k
+//@   modifies nothing
+//@   nopanic
+//@   loop 0 invariant sofar: (isnil(keys) || fresh(arr(keys))) && forall k: string :: (k in visited) ==> exists qi :: lo(keys) <= qi && qi < hi(keys) && at(keys, qi) == k
+
+//@ func (*gengineWrapper).clearInjected
+//@   props C06
+//@   entry nolocks
+//@   ensures [C06] cleaned: gw != nil && gw.rulebuilder != nil && gw.rulebuilder.Dc != nil ==> forall qi :: lo(keys) <= qi && qi < hi(keys) ==> !(at(keys, qi) in gw.rulebuilder.Dc.base)
+//@   modifies mapsof(map[string]reflect.Value)
 //@   nopanic
